@@ -57,6 +57,12 @@ def case_strategy(draw):
         if draw(st.booleans()):
             faults += [["NAK", i, "drop", 0] for i in range(draw(st.integers(1, 3)))]
         faults += [x for x in draw(S.fault_schedules(max_faults=2, actions=("drop", "dup", "delay")))]
+    if draw(st.integers(0, 7)) == 0 and sim.eff_mode(cfg) == "ACK":
+        # adversarial shape: the success report of the receiver reaches the sender only after the receiver has given up
+        # waiting for its acknowledgement (first Finished PDU held back past the positive ACK limit, the re-sent ones lost)
+        cfg["disposition"] = draw(st.booleans()) or True
+        L = cfg.get("ack_limit", 2)
+        faults = [["FIN", 0, "hold", L + draw(st.integers(0, 2))]] + [["FIN", i, "drop", 0] for i in range(1, L + 1)] + faults[:2]
     case = {"cfg": cfg, "file": f, "faults": faults}
     if not weak and draw(st.integers(0, 4)) == 0:
         case["fs_rejects"] = {"writes": sorted(set(draw(st.lists(st.integers(0, nseg + 4), min_size=1, max_size=3))))}
